@@ -81,34 +81,39 @@ void __sanitizer_symbolize_pc(void *pc, const char *fmt, char *out_buf, unsigned
 }
 struct RaceLog { std::atomic<int> known{0}, other{0}, harness_only{0}; char first_other[400]; };
 static RaceLog g_races;
-static bool core_frame(const char *sym, std::string &fn) {
+// NOTE: everything in the report callback must be allocation-free: the runtime holds its slot locks while it calls us,
+// and a malloc/free from here (e.g. a std::string) deadlocks against another thread that is reporting (seen once, with gdb).
+static bool core_frame(const char *sym, char *fn, size_t fnsz) {
     const char *bar = strchr(sym, '|');
     if (!bar) return false;
     if (!strstr(bar, "/lltdResponder/") && !strstr(bar, "lltd_esp32")) return false;
-    fn.assign(sym, bar - sym);
-    size_t p = fn.find('(');
-    if (p != std::string::npos) fn.resize(p);
+    size_t n = (size_t)(bar - sym);
+    if (n >= fnsz) n = fnsz - 1;
+    memcpy(fn, sym, n); fn[n] = 0;
+    char *p = strchr(fn, '(');
+    if (p) *p = 0;
     return true;
 }
 extern "C" void __tsan_on_report(void *rep) {
     const char *desc = ""; int cnt, sc, mc = 0, lc, mxc, tc, utc; void *sl[4];
     __tsan_get_report_data(rep, &desc, &cnt, &sc, &mc, &lc, &mxc, &tc, &utc, sl, 4);
-    std::string inner[2];
+    static thread_local char inner[2][128];
+    static thread_local char buf[600];
+    inner[0][0] = inner[1][0] = 0;
     int with_core = 0;
     for (int i = 0; i < mc && i < 2; i++) {
         int tid, sz, wr, at; void *addr; void *tr[48];
         memset(tr, 0, sizeof tr);
         __tsan_get_report_mop(rep, (unsigned long)i, &tid, &addr, &sz, &wr, &at, tr, 48);
         for (int k = 0; k < 48 && tr[k]; k++) {
-            char buf[600];
             __sanitizer_symbolize_pc(tr[k], "%f|%s", buf, sizeof buf);
-            if (core_frame(buf, inner[i])) { with_core++; break; }
+            if (core_frame(buf, inner[i], sizeof inner[i])) { with_core++; break; }
         }
     }
     if (with_core == 0) { g_races.harness_only++; return; }
     // known finding D8: for both racing accesses the innermost core frame is lltd_state_for_iface
-    if (mc >= 2 && inner[0] == "lltd_state_for_iface" && inner[1] == "lltd_state_for_iface") { g_races.known++; return; }
-    if (g_races.other++ == 0) snprintf(g_races.first_other, sizeof g_races.first_other, "%s: innermost core frames %s / %s", desc, inner[0].empty() ? "(none)" : inner[0].c_str(), inner[1].empty() ? "(none)" : inner[1].c_str());
+    if (mc >= 2 && !strcmp(inner[0], "lltd_state_for_iface") && !strcmp(inner[1], "lltd_state_for_iface")) { g_races.known++; return; }
+    if (g_races.other++ == 0) snprintf(g_races.first_other, sizeof g_races.first_other, "%s: innermost core frames %s / %s", desc, inner[0][0] ? inner[0] : "(none)", inner[1][0] ? inner[1] : "(none)");
 }
 
 struct ThreadArg { World *w; int ifi; HCfg h; std::vector<Op> ops; pthread_barrier_t *bar; std::vector<std::vector<Ev>> out; };
